@@ -142,6 +142,7 @@ func run(r *vk.Run) {
 	lossyCollection(r)
 	cancelDuringSeed(r)
 	mixedSubscribers(r)
+	mixedValueSubscribers(r)
 	publishOrder(r)
 	lateSubscriber(r)
 	lossyValue(r)
@@ -228,6 +229,11 @@ func colScenario(r *vk.Run, kind string, withInit bool, steps []step, bp bool, u
 	if withInit {
 		initA = mkVal("a")
 		opts = append(opts, resource.WithInitialRecord("a", initA))
+	}
+	if (len(steps)+b2i(withInit)+b2i(bp))%3 == 2 {
+		// a resource-level comparer (every written value is distinct, nothing is suppressed) changes none of this
+		opts = append(opts, resource.WithNoDuplicates())
+		r.Count("collection-scenarios-with-equivalence", 1)
 	}
 	col := resource.NewCollection(opts...)
 	ctx, cancel := context.WithCancel(context.Background())
@@ -570,6 +576,95 @@ func mixedSubscribers(r *vk.Run) {
 	r.Require("mixed-subscriber-scenarios", 50)
 }
 
+// mixedValueSubscribers: one Value, a subscriber with a read mask next to subscribers without one (a backpressured one
+// that keeps receiving, a lossy one that is idle until the end). What a neighbour asked to see is its own business:
+// the backpressured subscriber gets every written value exactly as written, the drained lossy one ends on Get's value.
+func mixedValueSubscribers(r *vk.Run) {
+	n := r.Pick(120, 6000)
+	for i := 0; i < n; i++ {
+		if !r.Mine(i) {
+			continue
+		}
+		rng := r.CaseRand("c09-mixedval", i)
+		v := resource.NewValue(resource.WithClock(clk{}), resource.WithInitialValue(mkValLocked("")))
+		ctx, cancel := context.WithCancel(context.Background())
+		live, idle, masked := newConsumer(), newConsumer(), newConsumer()
+		live.cancel, idle.cancel, masked.cancel = cancel, cancel, cancel
+		maskedBP, maskedUO := rng.Bool(), rng.Bool()
+		open := []func(){
+			func() { live.runVal(v.Pull(ctx, resource.WithBackpressure(true), resource.WithUpdatesOnly(true))) },
+			func() { idle.runVal(v.Pull(ctx, resource.WithBackpressure(false), resource.WithUpdatesOnly(true))) },
+			func() {
+				masked.runVal(v.Pull(ctx, resource.WithBackpressure(maskedBP), resource.WithUpdatesOnly(maskedUO), resource.WithReadPaths(&tat{}, "default_int32")))
+			},
+		}
+		for _, k := range rng.Perm(len(open)) {
+			open[k]()
+		}
+		live.grant(1 << 20)
+		masked.grant(1 << 20)
+		stopAll := func() { live.stop(); idle.stop(); masked.stop() }
+		if _, ok := r.MustQuiesce("c09-mixedval-open"); !ok {
+			stopAll()
+			return
+		}
+		k := rng.Range(2, 6)
+		var written []*tat
+		blocked := false
+		for j := 0; j < k && !blocked; j++ {
+			w := mkValLocked("")
+			written = append(written, w)
+			t := vk.Go(func() { v.Set(w) })
+			if _, ok := r.MustQuiesce("c09-mixedval-write"); !ok {
+				stopAll()
+				return
+			}
+			if !t.Done() {
+				r.Violation("C09/writer-blocked/value/mixed-subscribers", fmt.Sprintf("Set #%d has not returned at the quiescent point after it: the only idle subscriber is lossy\n%s", j, vk.DescribeGs(vk.LibraryGoroutines(vk.Goroutines(), nil))), map[string]any{"case": i})
+				idle.grant(1 << 20)
+				t.Wait()
+				blocked = true
+			}
+		}
+		r.Eval(1)
+		r.Count("mixed-value-subscriber-scenarios", 1)
+		r.Distinct(fmt.Sprintf("mixedval|%d|%v", k, maskedBP))
+		if !blocked {
+			live.mu.Lock()
+			got := append([]*resource.ValueChange{}, live.valEv...)
+			live.mu.Unlock()
+			bad := ""
+			if len(got) != len(written) {
+				bad = fmt.Sprintf("received %d values for %d writes", len(got), len(written))
+			}
+			for j := 0; bad == "" && j < len(written); j++ {
+				if !vk.SameMessage(got[j].Value, written[j]) {
+					bad = fmt.Sprintf("value #%d is %s, written was %s", j, vk.JSON(got[j].Value), vk.JSON(written[j]))
+				}
+			}
+			if bad != "" {
+				r.Violation("C09/dropped-with-backpressure/value/mixed-subscribers", fmt.Sprintf("%d writes with a read-masked subscriber (backpressure %v) and an idle lossy one next to it, the unmasked backpressured subscriber: %s", k, maskedBP, bad), map[string]any{"case": i})
+			}
+			idle.grant(1 << 20)
+			if _, ok := r.MustQuiesce("c09-mixedval-drain"); ok {
+				idle.mu.Lock()
+				evs := append([]*resource.ValueChange{}, idle.valEv...)
+				idle.mu.Unlock()
+				cur := v.Get()
+				if len(evs) == 0 || !vk.SameMessage(evs[len(evs)-1].Value, cur) {
+					last := "nothing"
+					if len(evs) > 0 {
+						last = vk.JSON(evs[len(evs)-1].Value)
+					}
+					r.Violation("C09/last-value/value/mixed-subscribers", fmt.Sprintf("%d writes with a read-masked subscriber (backpressure %v) next to it: the drained lossy subscriber (no mask) ends on %s, Get returns %s", k, maskedBP, last, vk.JSON(cur)), map[string]any{"case": i})
+				}
+			}
+		}
+		stopAll()
+	}
+	r.Require("mixed-value-subscriber-scenarios", 20)
+}
+
 // publishOrder: writers queue behind a delivery that a backpressured, momentarily idle subscriber is holding up;
 // meanwhile a client opens a (seeded) subscription and writes right away, so that the parties waiting for their turn
 // to publish did not start waiting in the order of their turns. Once the idle subscriber receives again everybody
@@ -818,14 +913,27 @@ func valueScenario(r *vk.Run, withInit bool, n, pat int) {
 	if withInit {
 		opts = append(opts, resource.WithInitialValue(mkValLocked("")))
 	}
+	// a resource-level comparer does not change what "without backpressure" means (every written value is distinct
+	// here, so nothing is suppressed either)
+	eqv := [...]string{"none", "no-duplicates", "comparer"}[(n+pat+b2i(withInit))%3]
+	switch eqv {
+	case "no-duplicates":
+		opts = append(opts, resource.WithNoDuplicates())
+	case "comparer":
+		opts = append(opts, resource.WithEquivalence(resource.ComparerFunc(func(x, y proto.Message) bool {
+			a, _ := x.(*tat)
+			b, _ := y.(*tat)
+			return a != nil && b != nil && a.DefaultInt32 == b.DefaultInt32
+		})))
+	}
 	v := resource.NewValue(opts...)
 	ctx, cancel := context.WithCancel(context.Background())
 	c := newConsumer()
 	c.cancel = cancel
 	c.runVal(v.Pull(ctx))
 	defer c.stop()
-	desc := fmt.Sprintf("value/lossy init=%v n=%d permits=%b", withInit, n, pat)
-	replay := map[string]any{"init": withInit, "n": n, "pattern": pat}
+	desc := fmt.Sprintf("value/lossy init=%v n=%d permits=%b equivalence=%s", withInit, n, pat, eqv)
+	replay := map[string]any{"init": withInit, "n": n, "pattern": pat, "equivalence": eqv}
 	if withInit {
 		c.grant(1)
 	}
